@@ -66,6 +66,21 @@ theorem substTys_map (θ : Subst) (ts : List Ty) : substTys θ ts = ts.map (subs
 theorem substTy_concrete (θ : Subst) {t : Ty} (h : concreteTy t = true) : substTy θ t = t := by
   cases t <;> simp [concreteTy] at h <;> simp [substTy]
 
+mutual
+theorem substTy_nil : ∀ t : Ty, substTy [] t = t
+  | .unit | .bool | .int _ _ | .float _ | .string | .enum _ | .struct _ | .dyn _ | .tvar _ => by simp [substTy]
+  | .param n => by simp [substTy, lookup]
+  | .tuple ts => by simp [substTy, substTys_nil ts]
+  | .app t args => by simp [substTy, substTy_nil t, substTys_nil args]
+  | .array len e => by simp [substTy, substTy_nil e]
+  | .vec e => by simp [substTy, substTy_nil e]
+  | .ref e => by simp [substTy, substTy_nil e]
+  | .func ps r => by simp [substTy, substTys_nil ps, substTy_nil r]
+theorem substTys_nil : ∀ ts : List Ty, substTys [] ts = ts
+  | [] => by simp [substTys]
+  | t :: ts => by simp [substTys, substTy_nil t, substTys_nil ts]
+end
+
 /-! ### value typing -/
 
 variable {S : Sig} {P : Prog}
@@ -110,8 +125,8 @@ theorem enumFieldTys_nominal {tn : String} {idx : Nat} {ty : Ty} {fts : List Ty}
     · cases h
   · cases h
 
-theorem VT_prim (p : Prim) : VT S P (primVal p) (primTy p) := by
-  cases p <;> simp only [primVal, primTy] <;> constructor
+theorem VT_prim (p : Prim) (h : primOk p = true) : VT S P (primVal p) (primTy p) := by
+  cases p <;> simp only [primVal, primTy] <;> constructor <;> simpa [primOk] using h
 
 /-- canonical forms -/
 theorem VT_bool {v : Val} (h : VT S P v .bool) : ∃ b, v = .bool b := by
@@ -134,13 +149,13 @@ theorem VT_unit {v : Val} (h : VT S P v .unit) : v = .unit := by
 
 theorem VT_int {v : Val} {b : Nat} {s : Bool} (h : VT S P v (.int b s)) : ∃ x, v = .int b s x := by
   cases h with
-  | int _ _ x => exact ⟨x, rfl⟩
+  | int _ _ x _ => exact ⟨x, rfl⟩
   | enumV h1 _ _ => simp [isEnumTy] at h1
   | structV h1 _ _ => simp [isStructTy] at h1
 
 theorem VT_float {v : Val} {b : Nat} (h : VT S P v (.float b)) : ∃ x, v = .float b x := by
   cases h with
-  | float _ x => exact ⟨x, rfl⟩
+  | float _ x _ => exact ⟨x, rfl⟩
   | enumV h1 _ _ => simp [isEnumTy] at h1
   | structV h1 _ _ => simp [isStructTy] at h1
 
@@ -278,8 +293,8 @@ theorem valKey_of_VT {v : Val} {τ : Ty} (hc : concreteTy τ = true) (h : VT S P
   cases h with
   | unit => rfl
   | bool => rfl
-  | int => rfl
-  | float => rfl
+  | int _ _ _ _ => rfl
+  | float _ _ _ => rfl
   | str => rfl
   | tuple _ => simp [concreteTy] at hc
   | @enumV n idx args _ fts h1 h2 _ =>
